@@ -74,8 +74,9 @@ var F = [undefined, function f1(){ return 11; }, function f2(v){ return 12; }];
 var SYM = Symbol("s");
 var OBJ = [null, {p1:1}, {p2:2}, {o3:3}];
 function val(c){ switch(c){ case 0: return undefined; case 1: return 1; case 2: return 2; case 3: return NaN;
-  case 4: return 0; case 5: return -0; case 6: return "s"; case 7: return OBJ[1]; } throw new Error("val "+c); }
-function valCode(v){ for (var c = 0; c < 8; c++) if (Object.is(v, val(c))) return c; return 99; }
+  case 4: return 0; case 5: return -0; case 6: return "s"; case 7: return OBJ[1]; case 11: return 11; case 12: return 12; } throw new Error("val "+c); }
+var VCODES = [0, 1, 2, 3, 4, 5, 6, 7, 11, 12];
+function valCode(v){ for (var i = 0; i < VCODES.length; i++) if (Object.is(v, val(VCODES[i]))) return VCODES[i]; return 99; }
 var KEYS = [undefined, "a", "b", "7", SYM, "c", "8"];
 function key(c){ return KEYS[c]; }
 function keyCode(k){ for (var c = 1; c < KEYS.length; c++) if (KEYS[c] === k) return c; return 99; }
@@ -151,6 +152,37 @@ function errClass(e){
   if (e instanceof TypeError) return "TypeError"; if (e instanceof RangeError) return "RangeError";
   if (e instanceof SyntaxError) return "SyntaxError"; if (e instanceof ReferenceError) return "ReferenceError";
   return "Thrown"; }
+var FWD = {
+  getPrototypeOf: function(t){ return Reflect.getPrototypeOf(t); }, setPrototypeOf: function(t, p){ return Reflect.setPrototypeOf(t, p); },
+  isExtensible: function(t){ return Reflect.isExtensible(t); }, preventExtensions: function(t){ return Reflect.preventExtensions(t); },
+  getOwnPropertyDescriptor: function(t, k){ return Reflect.getOwnPropertyDescriptor(t, k); },
+  defineProperty: function(t, k, d){ return Reflect.defineProperty(t, k, d); }, has: function(t, k){ return Reflect.has(t, k); },
+  get: function(t, k, r){ return Reflect.get(t, k, r); }, set: function(t, k, v, r){ return Reflect.set(t, k, v, r); },
+  deleteProperty: function(t, k){ return Reflect.deleteProperty(t, k); }, ownKeys: function(t){ return Reflect.ownKeys(t); } };
+function mop(p, op){
+  var k = key(op.k|0);
+  switch (op.o){
+  case "getproto": return {proto: objCode(Reflect.getPrototypeOf(p))};
+  case "setproto": return {b: Reflect.setPrototypeOf(p, OBJ[op.p|0])};
+  case "isext": return {b: Reflect.isExtensible(p)};
+  case "prevext": return {b: Reflect.preventExtensions(p)};
+  case "gopd": return descObs(Reflect.getOwnPropertyDescriptor(p, k));
+  case "define": return {b: Reflect.defineProperty(p, k, mkDesc(op.d || {}))};
+  case "has": return {b: Reflect.has(p, k)};
+  case "get": return {v: valCode(Reflect.get(p, k))};
+  case "set": return {b: Reflect.set(p, k, val(op.v|0))};
+  case "delete": return {b: Reflect.deleteProperty(p, k)};
+  case "keys": var ks = Reflect.ownKeys(p), out = []; for (var i = 0; i < ks.length; i++) out.push(keyCode(ks[i])); return {keys: out};
+  }
+  throw new Error("op " + op.o); }
+function runModel(caseJSON, mkGo){
+  var cs = JSON.parse(caseJSON), t = mkTarget(cs.target, false), p = t;
+  for (var i = 0; i < cs.layers; i++) p = cs.mode === "go" ? mkGo(p) : new Proxy(p, FWD);
+  var out = [];
+  for (var j = 0; j < cs.ops.length; j++){ try { out.push(mop(p, cs.ops[j])); } catch (e) { out.push({err: errClass(e)}); } }
+  var ks = Reflect.ownKeys(t), props = [];
+  for (var i = 0; i < ks.length; i++){ var d = descObs(Reflect.getOwnPropertyDescriptor(t, ks[i])); props.push({k: keyCode(ks[i]), d: d.desc || null}); }
+  return JSON.stringify({obs: out, final: {ext: Reflect.isExtensible(t), proto: objCode(Reflect.getPrototypeOf(t)), props: props}}); }
 function runLat(caseJSON, goProxy){
   var cs = JSON.parse(caseJSON), c = cs.call;
   var callable = c.trap === "apply" || c.trap === "construct";
@@ -295,7 +327,12 @@ func (e *env) goDesc(d *DescSpec, kind string) goja.PropertyDescriptor {
 // ---------------------------------------------------------------------------------------------
 // Gallina rendering
 
-func cN(i int) string { return fmt.Sprintf("%d%%N", i) }
+func cN(i int) string {
+	if i >= 0 && i < 1000 {
+		return fmt.Sprintf("n%d", i)
+	}
+	return fmt.Sprintf("%d%%N", i)
+}
 func cB(b bool) string { return vh.CoqBool(b) }
 func cOptN(i int) string { // 0 = None
 	if i == 0 {
@@ -505,6 +542,166 @@ func runLatCase(c LatCase) vh.Record {
 }
 
 // ---------------------------------------------------------------------------------------------
+// histories on a modelled plain object through forwarding proxies, checked against the target model (ord_step)
+
+type MOp struct {
+	O string    `json:"o"`
+	K int       `json:"k,omitempty"`
+	V int       `json:"v,omitempty"`
+	P int       `json:"p,omitempty"`
+	D *DescSpec `json:"d,omitempty"`
+}
+
+type ModelCase struct {
+	Kind   string     `json:"kind"` // "model"
+	Mode   string     `json:"mode"` // reflect | go
+	Layers int        `json:"layers"`
+	Target TargetSpec `json:"target"`
+	Ops    []MOp      `json:"ops"`
+}
+
+var modelKeys = []int{1, 2, 5} // string keys only: own-key order is then insertion order, as in the model's list
+
+func modelGen(r *vh.Rng) ModelCase {
+	c := ModelCase{Kind: "model", Mode: []string{"reflect", "go"}[r.Pick(3, 1)], Layers: 1 + r.Pick(5, 3, 2)}
+	c.Target = TargetSpec{Ext: r.Chance(80), Proto: r.Intn(3), Props: []PropSpec{}}
+	for _, k := range modelKeys {
+		switch r.Pick(3, 4, 3) {
+		case 1:
+			c.Target.Props = append(c.Target.Props, PropSpec{K: k, V: r.Intn(3), W: r.Bool(), E: r.Bool(), C: r.Bool()})
+		case 2:
+			g, s := r.Intn(2), 2*r.Intn(2)
+			if g == 0 && s == 0 {
+				g = 1 // F6c (open): an accessor without getter and setter is misreported through the proxy
+			}
+			c.Target.Props = append(c.Target.Props, PropSpec{K: k, Acc: true, G: g, S: s, E: r.Bool(), C: r.Bool()})
+		}
+	}
+	ob := func() *bool {
+		switch r.Intn(3) {
+		case 0:
+			return nil
+		case 1:
+			return bp(true)
+		}
+		return bp(false)
+	}
+	names := []string{"define", "get", "set", "has", "delete", "keys", "gopd", "prevext", "isext", "getproto", "setproto"}
+	n := 4 + r.Intn(20)
+	for i := 0; i < n; i++ {
+		op := MOp{O: names[r.Pick(14, 10, 12, 6, 8, 8, 12, 2, 3, 3, 4)], K: modelKeys[r.Intn(3)]}
+		switch op.O {
+		case "define":
+			d := &DescSpec{E: ob(), C: ob()}
+			switch r.Pick(6, 3, 3, 1) {
+			case 0: // data descriptors always carry a value (FC11-accstale, open: {writable} alone on an accessor)
+				d.Value, d.W = ip(r.Intn(3)), ob()
+			case 1: // accessor descriptors always carry a setter (FC11-symset, open: data -> getter-only accessor)
+				d.Set = ip(2)
+				if r.Bool() {
+					d.Get = ip(r.Intn(2))
+				}
+			case 3:
+				d.Value, d.Get = ip(1), ip(1)
+			}
+			op.D = d
+		case "set":
+			op.V = r.Intn(3)
+		case "setproto":
+			op.P = r.Intn(3)
+		}
+		c.Ops = append(c.Ops, op)
+	}
+	return c
+}
+
+func coqMOp(o MOp) string {
+	switch o.O {
+	case "getproto":
+		return "OGetProto"
+	case "setproto":
+		return "(OSetProto " + cOptN(o.P) + ")"
+	case "isext":
+		return "OIsExt"
+	case "prevext":
+		return "OPrevExt"
+	case "gopd":
+		return "(OGopd " + cN(o.K) + ")"
+	case "define":
+		return "(ODefine " + cN(o.K) + " " + coqDesc(o.D) + ")"
+	case "has":
+		return "(OHas " + cN(o.K) + ")"
+	case "get":
+		return "(OGet " + cN(o.K) + ")"
+	case "set":
+		return "(OSet " + cN(o.K) + " " + cN(o.V) + ")"
+	case "delete":
+		return "(ODelete " + cN(o.K) + ")"
+	}
+	return "OOwnKeys"
+}
+
+func runModelCase(c ModelCase) vh.Record {
+	e := newEnv()
+	raw := vh.MustJSON(c)
+	tags := []string{"model", "mode=" + c.Mode, fmt.Sprintf("layers=%d", c.Layers)}
+	mkGo := e.rt.ToValue(func(fc goja.FunctionCall) goja.Value {
+		return e.rt.ToValue(e.rt.NewProxy(fc.Argument(0).ToObject(e.rt), histGoHandler(e.rt)))
+	})
+	f, _ := goja.AssertFunction(e.rt.Get("runModel"))
+	v, err := f(goja.Undefined(), e.rt.ToValue(string(raw)), mkGo)
+	if err != nil {
+		return vh.Record{Case: raw, Coq: failTerm, Obs: "harness error: " + err.Error(), Tags: tags}
+	}
+	var out struct {
+		Obs   []latObs `json:"obs"`
+		Final struct {
+			Ext   bool `json:"ext"`
+			Proto int  `json:"proto"`
+			Props []struct {
+				K int      `json:"k"`
+				D *obsDesc `json:"d"`
+			} `json:"props"`
+		} `json:"final"`
+	}
+	if err := json.Unmarshal([]byte(v.String()), &out); err != nil {
+		return vh.Record{Case: raw, Coq: failTerm, Obs: "bad observation: " + v.String(), Tags: tags}
+	}
+	var ops, obs []string
+	mutated := false
+	for i, o := range c.Ops {
+		ops = append(ops, coqMOp(o))
+		t := coqObs(out.Obs[i])
+		if t == "" {
+			return vh.Record{Case: raw, Coq: failTerm, Obs: "inexpressible observation at op " + strconv.Itoa(i) + ": " + v.String(), Tags: tags}
+		}
+		obs = append(obs, t)
+		if (o.O == "define" || o.O == "set" || o.O == "delete") && t == "(RBool true)" {
+			mutated = true
+		}
+	}
+	fin := TargetSpec{Ext: out.Final.Ext, Proto: out.Final.Proto}
+	for _, p := range out.Final.Props {
+		if p.D == nil {
+			return vh.Record{Case: raw, Coq: failTerm, Obs: "malformed final descriptor: " + v.String(), Tags: tags}
+		}
+		fin.Props = append(fin.Props, PropSpec{K: p.K, Acc: p.D.Acc, V: p.D.V, W: p.D.W, G: p.D.G, S: p.D.S, E: p.D.E, C: p.D.C})
+	}
+	fj, _ := json.Marshal(out.Final)
+	s := "final=" + string(fj) + " all=" + v.String()
+	if len(s) > 1800 {
+		s = s[:1800]
+	}
+	return vh.Record{
+		Case:       raw,
+		Coq:        fmt.Sprintf("TModel %s %s %s %s", coqTarget(c.Target), vh.CoqList(ops), vh.CoqList(obs), coqTarget(fin)),
+		Obs:        s,
+		Tags:       tags,
+		Nontrivial: mutated,
+	}
+}
+
+// ---------------------------------------------------------------------------------------------
 
 func runRaw(raw json.RawMessage) vh.Record {
 	var k struct {
@@ -520,6 +717,12 @@ func runRaw(raw json.RawMessage) vh.Record {
 			panic(err)
 		}
 		return runLatCase(c)
+	case "model":
+		var c ModelCase
+		if err := json.Unmarshal(raw, &c); err != nil {
+			panic(err)
+		}
+		return runModelCase(c)
 	case "hist":
 		var c HistCase
 		if err := json.Unmarshal(raw, &c); err != nil {
@@ -563,6 +766,8 @@ func main() {
 			var raw json.RawMessage
 			if i%25 == 24 {
 				raw = vh.MustJSON(revGen(r))
+			} else if i%3 == 1 {
+				raw = vh.MustJSON(modelGen(r))
 			} else {
 				raw = vh.MustJSON(histGen(r, m.Tier))
 			}
